@@ -997,6 +997,20 @@ def remarked(desc):
             if v.get("t") != "ref":
                 continue
             k = v["n"]
+            # ... or `c` is also held by a pre-task / init task of the task itself: those are identified on their own
+            # (outside the hash of the task), so they see the mark once it is set
+            own_light = [q for a in desc["actions"] if a.get("n") == s_ and a["a"] in ("pre", "submit")
+                         for q in (a.get("ids", []) + a.get("init", []))]
+            for q in own_light:
+                seen, todo = set(), [q]
+                while todo:
+                    m = todo.pop()
+                    if m in seen or m >= nn or m == s_:
+                        continue
+                    seen.add(m)
+                    todo.extend(_desc_succs(desc, m))
+                if k in seen:
+                    return True
             for r in roots:
                 if r == s_ or r >= nn:
                     continue
